@@ -603,7 +603,7 @@ impl ParserListener for Screen {
 
         let mut column: u32 = 0;
         for &stop in vec.iter() {
-            if self.cursor.x < *stop {
+            if self.cursor.x < *stop && *stop < self.columns {
                 column = *stop;
                 break;
             }
